@@ -32,7 +32,27 @@ type event struct {
 	e   N
 }
 
+// roundsScript: R rounds in one evaluation, each with a fresh buffered channel, nr receivers that take values with
+// direct receives, fewer values than receivers sent by the main thread, and the close right behind the last value:
+// the receivers race for every value and for the close. Every round is a history of its own (newround marks it).
+func roundsScript(t N) string {
+	nr, msgs, cp, rounds := int(t["nr"].(float64)), int(t["msgs"].(float64)), int(t["cap"].(float64)), int(t["rounds"].(float64))
+	var sb strings.Builder
+	recv := "m := <-c"
+	if t["recv"] == "method" {
+		recv = "m := c.receive()"
+	}
+	sb.WriteString("func receiver(c, r) {\nfor {\n" + recv + "\nif m == nil {\ngotnil(r)\nbreak\n}\ngot(r, m[0], m[1])\n}\nreturn r\n}\n")
+	fmt.Fprintf(&sb, "for round := 1; round <= %d; round++ {\nnewround(round)\nc := chan(%d)\nrs := []\n", rounds, cp)
+	fmt.Fprintf(&sb, "for r := 1; r <= %d; r++ {\nrs.append(spawn(receiver, c, r))\n}\n", nr)
+	fmt.Fprintf(&sb, "for i := 1; i <= %d; i++ {\nsent(1, i)\nc <- [1, i]\n}\nclosed()\nclose(c)\nfor t in rs {\nt.wait()\n}\n}\n\"done\"\n", msgs)
+	return sb.String()
+}
+
 func script(t N) string {
+	if _, ok := t["rounds"]; ok {
+		return roundsScript(t)
+	}
 	ns, nr, msgs, cp := int(t["ns"].(float64)), int(t["nr"].(float64)), int(t["msgs"].(float64)), int(t["cap"].(float64))
 	form := t["spawn"].(string)
 	recv := t["recv"].(string)
@@ -147,6 +167,7 @@ func runWorker(req N) (resp N) {
 	sent := b("sent", func(a []object.Object) { log(N{"ev": "send", "s": iv(a[0]), "i": iv(a[1])}); yield() })
 	got := b("got", func(a []object.Object) { yield(); log(N{"ev": "recv", "r": iv(a[0]), "s": iv(a[1]), "i": iv(a[2])}) })
 	closed := b("closed", func(a []object.Object) { log(N{"ev": "close"}) })
+	newround := b("newround", func(a []object.Object) { log(N{"ev": "round", "n": iv(a[0])}) })
 	gotnil := b("gotnil", func(a []object.Object) { log(N{"ev": "nil", "r": iv(a[0])}) })
 	var marks []any
 	mark := b("mark", func(a []object.Object) {
@@ -166,7 +187,7 @@ func runWorker(req N) (resp N) {
 	stdout := ros.NewBufferFile(nil)
 	vos := ros.NewVirtualOS(ctx, ros.WithStdout(stdout))
 	res, err := risor.Eval(ctx, src, risor.WithOS(vos), risor.WithConcurrency(),
-		risor.WithGlobals(map[string]any{"sent": sent, "got": got, "closed": closed, "gotnil": gotnil, "mark": mark}))
+		risor.WithGlobals(map[string]any{"sent": sent, "got": got, "closed": closed, "gotnil": gotnil, "mark": mark, "newround": newround}))
 	out := N{"k": "ok", "src": src}
 	if err != nil {
 		out["k"] = "raise"
@@ -181,6 +202,26 @@ func runWorker(req N) (resp N) {
 		evs[i] = e.e
 	}
 	mu.Unlock()
+	if _, ok := req["rounds"]; ok {
+		// one history per round (every thread of a round has been waited for before the next round starts)
+		var rounds []any
+		var cur []any
+		for _, e := range evs {
+			if e.(N)["ev"] == "round" {
+				if cur != nil {
+					rounds = append(rounds, cur)
+				}
+				cur = []any{}
+				continue
+			}
+			cur = append(cur, e)
+		}
+		if cur != nil {
+			rounds = append(rounds, cur)
+		}
+		out["rounds"] = rounds
+		evs = []any{}
+	}
 	out["events"] = evs
 	out["marks"] = marks
 	return out
